@@ -8,7 +8,7 @@
 //! C04_STUB=accept: negative control, reports every planted program of an even record index as accepted.
 
 use serde_json::{json, Value};
-use std::collections::BTreeMap;
+use std::collections::{BTreeMap, HashMap};
 use std::path::Path;
 use vharness::printer::{print_program, PrintOpts};
 use vharness::util::*;
@@ -74,26 +74,52 @@ fn main() {
     if args.len() < 4 || args[1] != "record" {
         tool_error("usage: c04 record <cases> <trace> | c04 probe <file>...");
     }
-    let cases: Vec<Value> = read_ndjson(Path::new(&args[2]));
+    // the case file is large (three program ASTs per case): lines are parsed, rendered and dropped one by one (in parallel)
+    let text = std::fs::read_to_string(&args[2]).unwrap_or_else(|e| tool_error(&format!("open {}: {}", args[2], e)));
+    let lines: Vec<&str> = text.lines().filter(|l| !l.trim().is_empty()).collect();
     let stub = std::env::var("C04_STUB").ok().as_deref() == Some("accept");
-    let recs = vharness::pool::par_map(&cases, |i, c| {
-        let bps: Vec<Project> = c["bases"].as_array().unwrap().iter().map(render).collect();
-        let pp = render(&c["planted"]);
-        let bos: Vec<(Value, String)> = bps.iter().map(outcome).collect();
-        let (mut po, pd) = outcome(&pp);
-        if stub && i % 2 == 0 {
-            po = json!({"class": "ok", "kind": "-"});
-        }
-        let bases: Vec<Value> = bos.iter().map(|(o, _)| o.clone()).collect();
-        let all_ok = bases.iter().all(|b| b["class"] == "ok");
-        let mut r = json!({"id": c["id"], "bases": bases, "planted": po});
-        if !all_ok || r["planted"]["class"] != "err" || i < 3 {
-            r["bases_detail"] = json!(bos.iter().map(|(_, d)| d.clone()).collect::<Vec<_>>());
-            r["planted_detail"] = json!(pd);
-            r["bases_src"] = json!(bps.iter().map(|p| p.files.clone()).collect::<Vec<_>>());
-            r["planted_src"] = json!(pp.files);
-        }
-        r
+    // render everything, compile every DISTINCT program once (many cases share a base program), assemble the records
+    let parsed: Vec<(Value, Vec<Project>, Project)> = vharness::pool::par_map(&lines, |i, l| {
+        let c: Value = serde_json::from_str(l).unwrap_or_else(|e| tool_error(&format!("{}:{}: bad json: {}", args[2], i + 1, e)));
+        (c["id"].clone(), c["bases"].as_array().unwrap().iter().map(render).collect(), render(&c["planted"]))
     });
+    drop(lines);
+    drop(text);
+    let ids: Vec<&Value> = parsed.iter().map(|r| &r.0).collect();
+    let rendered: Vec<(&Vec<Project>, &Project)> = parsed.iter().map(|r| (&r.1, &r.2)).collect();
+    let mut index: HashMap<&Project, usize> = HashMap::new();
+    let mut uniq: Vec<&Project> = Vec::new();
+    for (bps, pp) in &rendered {
+        for p in bps.iter().chain(std::iter::once(*pp)) {
+            if !index.contains_key(p) {
+                index.insert(p, uniq.len());
+                uniq.push(p);
+            }
+        }
+    }
+    let outs: Vec<(Value, String)> = vharness::pool::par_map(&uniq, |_, p| outcome(p));
+    eprintln!("c04: {} cases, {} programs, {} distinct programs compiled", ids.len(), rendered.iter().map(|r| r.0.len() + 1).sum::<usize>(), uniq.len());
+    let recs: Vec<Value> = ids
+        .iter()
+        .enumerate()
+        .map(|(i, id)| {
+            let (bps, pp) = rendered[i];
+            let bos: Vec<(Value, String)> = bps.iter().map(|p| outs[index[p]].clone()).collect();
+            let (mut po, pd) = outs[index[pp]].clone();
+            if stub && i % 2 == 0 {
+                po = json!({"class": "ok", "kind": "-"});
+            }
+            let bases: Vec<Value> = bos.iter().map(|(o, _)| o.clone()).collect();
+            let all_ok = bases.iter().all(|b| b["class"] == "ok");
+            let mut r = json!({"id": id, "bases": bases, "planted": po});
+            if !all_ok || r["planted"]["class"] != "err" || i < 3 {
+                r["bases_detail"] = json!(bos.iter().map(|(_, d)| d.clone()).collect::<Vec<_>>());
+                r["planted_detail"] = json!(pd);
+                r["bases_src"] = json!(bps.iter().map(|p| p.files.clone()).collect::<Vec<_>>());
+                r["planted_src"] = json!(pp.files);
+            }
+            r
+        })
+        .collect();
     write_ndjson(Path::new(&args[3]), &recs);
 }
